@@ -33,3 +33,8 @@ Theorem C19_reverse_min_dist : forall (K : Type) (E : EqDec K) (V : Type) (g : g
   wf_graph g -> (min_dist g a b d <-> min_dist (g_reverse g) b a d).
 Proof. exact (fun K E V => @reverse_min_dist K E V). Qed.
 Print Assumptions C19_reverse_min_dist.
+
+Theorem C19_reverse_acyclic : forall (K : Type) (E : EqDec K) (V : Type) (g : graph K V),
+  wf_graph g -> (acyclic g <-> acyclic (g_reverse g)).
+Proof. exact (fun K E V => @reverse_acyclic K E V). Qed.
+Print Assumptions C19_reverse_acyclic.
